@@ -86,6 +86,8 @@ def checkExplPctRange (x : Arg α) : Option α :=
 def lightenBy (q : CQuirks) (c : Col α) (amount : α) (up : Bool) : Col α :=
   let h := c.toHsla q
   let lum := if up then h.l + amount else h.l - amount
+  -- since fix 9a5b50b: `let lum = lum.clamp(0., 1.);`
+  let lum := if q.lightenUnclamped then lum else clamp 0 1 lum
   .hsla (Hsla.new q h.h h.s lum h.a false)
 
 /-- hsl.rs `saturate`: `(sat + amount).clamp(0, 1)` -/
@@ -98,10 +100,12 @@ def desaturateBy (q : CQuirks) (c : Col α) (amount : α) : Col α :=
   let h := c.toHsla q
   .hsla (Hsla.new q h.h (h.s - amount) h.l h.a false)
 
-/-- hsl.rs global `grayscale` -/
+/-- hsl.rs global `grayscale`: `Hsla::new(hue, 0, lum, alpha, !is_rgb)` (before fix bbb0a86 the
+flag was always `false`) -/
 def grayscale (q : CQuirks) (c : Col α) : Col α :=
   let h := c.toHsla q
-  .hsla (Hsla.new q h.h 0 h.l h.a false)
+  let fmt := if q.grayscaleRgbFormat then false else (match c with | .rgba _ => false | _ => true)
+  .hsla (Hsla.new q h.h 0 h.l h.a fmt)
 
 /-- other.rs `fade_in` / `fade_out`: `set_alpha(alpha ± amount)` -/
 def fadeBy (c : Col α) (amount : α) (up : Bool) : Col α :=
